@@ -6,6 +6,11 @@ the text of the property (id, title, statement, quantifier) - nothing from
 import json, os, subprocess, sys
 root = sys.argv[1]
 n = int(sys.argv[2]) if len(sys.argv) > 2 else 2
+style = sys.argv[3] if len(sys.argv) > 3 else "clauses"
+STYLE = {
+ "clauses": "First read the statement clause by clause and the 'quantified over' text: each change must violate a DIFFERENT clause of the statement, or the same clause for a different region of the quantified input space, at a different code site. Prefer changes that only manifest for inputs away from the obvious ones: a particular nesting of two different constructs, the third or later element of a list, several scripts / statements in one file, a particular combination of the -optimize / line-marker / font / switch options with a particular input, unusual but legal token shapes, values at a boundary. State that leaks between two uses (a cache, a reused slice, a counter that is not reset) and cooperating edits at two sites are welcome.",
+ "interactions": "Assume that a checker already explores small programs that use the property's feature on its own, in every simple position. Aim for what such a checker would miss: the change must only manifest when the property's feature INTERACTS with another feature of the language or tool - constants (const), poryswitch, AutoVar commands, inline text / format() / moves(), mapscripts with inline scripts, user labels and gotos, several top-level statements in one file in a particular order, line markers, lint mode, -optimize, CRLF or multi-byte input, comments - or only for the second / later occurrence of something in one file, or only at depth >= 2 of nesting. Model each change on a plausible maintenance activity: a performance optimisation (caching, early exit, avoiding an allocation), the first half of a new feature, a generalisation of a helper to a second caller, a clean-up that merges two similar code paths, a bug fix for a different issue that over-reaches.",
+}[style]
 letters = "ABCDEF"[:n]
 os.makedirs(root + "/prompts", exist_ok=True)
 for l in open('/verif/properties.jsonl'):
@@ -21,7 +26,7 @@ Here is a semantic property of poryscript that should hold on the unchanged code
   statement: {p['statement']}
   quantified over: {p['quantifier']['text']}
 
-YOUR TASK: produce {n} independent, realistic source changes ({', '.join('"%s"' % c for c in letters)}) to the poryscript code (non-test .go files only), each of which BREAKS this property while the project still compiles AND all the existing tests still pass unchanged. Each change should look like a plausible bug a maintainer could introduce (a refactoring slip, a 'simplification', an optimisation, a half-finished feature), NOT sabotage. First read the statement clause by clause and the 'quantified over' text: each change must violate a DIFFERENT clause of the statement, or the same clause for a different region of the quantified input space, at a different code site. Prefer changes that only manifest for inputs away from the obvious ones: a particular nesting of two different constructs, the third or later element of a list, several scripts / statements in one file, a particular combination of the -optimize / line-marker / font / switch options with a particular input, unusual but legal token shapes, values at a boundary. State that leaks between two uses (a cache, a reused slice, a counter that is not reset) and cooperating edits at two sites are welcome. Avoid the single most obvious one-line mistake at the most obvious site. Keep each change small (at most ~15 changed lines).
+YOUR TASK: produce {n} independent, realistic source changes ({', '.join('"%s"' % c for c in letters)}) to the poryscript code (non-test .go files only), each of which BREAKS this property while the project still compiles AND all the existing tests still pass unchanged. Each change should look like a plausible bug a maintainer could introduce (a refactoring slip, a 'simplification', an optimisation, a half-finished feature), NOT sabotage. {STYLE} The changes must break the property in different ways at different code sites. Avoid the single most obvious one-line mistake at the most obvious site. Keep each change small (at most ~15 changed lines).
 
 For each change X deliver, in directory {wt}/OUT/X/ :
   1. patch.diff   - a unified diff produced with `git -C {wt} diff` against the unchanged tree (only the source change, not the demo), applicable with `git apply` from the repo root.
